@@ -59,6 +59,15 @@ def cases(tier, seed):
                 # general / history: compact names; special positions: the symbol written with blanks between its elements ('P 3 1 2')
                 nm = O.HM[no] + (" R" if cc == "rhombohedral" else "") if part == "special" else names[(no, cc)][ci % len(names[(no, cc)])]
                 cs.append({"no": no, "cc": cc, "name": nm, "cell": cell, "part": part, "tier": tier})
+    # every element of the form-factor table, from hkl = 000 to very high indices (sin(theta)/lambda up to ~6: no limit on hkl is stated), with unround
+    # coordinates, in P-1 / P21/c / P1 on oblique cells
+    from xfab import atomlib
+
+    els = sorted(atomlib.formfactor, key=lambda e: O.Z.get(e, 999))
+    for lo in range(0, len(els), 6):
+        cs.append({"no": [2, 14, 1][(lo // 6) % 3], "cc": "standard", "name": ["P -1", "P 21/c", "p1"][(lo // 6) % 3],
+                   "cell": [[5.1, 6.3, 7.7, 82.0, 97.0, 104.0], [5.1, 6.3, 7.7, 90.0, 104.0, 90.0], [3.1415926535, 4.6692016091, 5.4365636569, 81.2345678912, 94.8765432198, 102.3456789123]][(lo // 6) % 3],
+                   "part": "elements", "els": els[lo:lo + 6], "tier": tier})
     return cs
 
 
@@ -93,6 +102,18 @@ def check_case(case):
     def F_of(spec, disp, h):
         return complex(*structure.StructureFactor(h, cell, name, make_atoms(structure, spec), disp))
 
+    if case["part"] == "elements":
+        hk = [(0, 0, 0), (1, 0, 0), (2, -1, 3), (7, -8, 5), (0, 12, 0), (33, 2, -5), (-20, 31, 17), (0, 0, 80), (60, -45, 70)]
+        for el in case["els"]:
+            if el not in O.Z:
+                continue
+            for adpt, adpv in (("Uiso", 0.0031), (None, None)):
+                spec = [dict(el=el, pos=(0.123456789012, 0.718281828459, 0.314159265359), adp_type=adpt, adp=adpv, occ=0.87654321, mult=g.nsymop),
+                        dict(el="O", pos=(0.41, 0.07, 0.77), adp_type=adpt, adp=adpv, occ=1.0, mult=g.nsymop)]
+                compare(spec, {el: [0.12, 0.34], "O": None} if el != "O" else None, "elements:%s:%s" % (el, adpt), hk=hk)
+        r.states = len(hk) * len(case["els"]) * 2
+        r.transitions = r.evals
+        return r
     if case["part"] == "general":
         uani1 = [0.010, 0.020, 0.015, 0.003, -0.004, 0.005]
         uani2 = [0.021, 0.011, 0.017, -0.002, 0.006, 0.001]
